@@ -154,9 +154,17 @@ Init == cur = NoMsg /\ res = NoRes /\ hist = <<>>
 Step(m) == /\ cur' = m /\ res' = Build(m)
            /\ hist' = Append(hist, m)
 
-Next == /\ Len(hist) < MaxOps
-        /\ \/ \E k \in OpKinds \cup EvKinds : \E m \in MessagesOf(k) : Step(m)
-           \/ \E s \in Malformed, z \in Salts : Step(MalformedMsg(s, z))
+Bounded == Len(hist) < MaxOps
+
+\* one action per builder family of channel_writer.go (the per-kind tables CallKind / Req give the request of each kind)
+DoMalformed == Bounded /\ \E s \in Malformed, z \in Salts : Step(MalformedMsg(s, z))
+DoDatabase  == Bounded /\ \E k \in DbKinds : \E m \in MessagesOf(k) : Step(m)
+DoRbac      == Bounded /\ \E k \in RbacKinds : \E m \in MessagesOf(k) : Step(m)
+DoCollOp    == Bounded /\ \E k \in CollKinds : \E m \in MessagesOf(k) : Step(m)
+DoListOp    == Bounded /\ \E k \in ListKinds : \E m \in MessagesOf(k) : Step(m)
+DoEvent     == Bounded /\ \E k \in EvKinds : \E m \in MessagesOf(k) : Step(m)
+
+Next == DoMalformed \/ DoDatabase \/ DoRbac \/ DoCollOp \/ DoListOp \/ DoEvent
 
 Spec == Init /\ [][Next]_vars
 
